@@ -146,6 +146,9 @@ type caseSpec struct {
 	Cluster bool   `json:"cluster,omitempty"`
 	// ZoneOffS: UTC offset (seconds) of the reader process's local time zone (time.Local) for this case
 	ZoneOffS int `json:"zone_off_s,omitempty"`
+	// History: the case is a sequence of requests in one process (see evaluate); Sibling = the interleaved query
+	History bool   `json:"history,omitempty"`
+	Sibling string `json:"sibling,omitempty"`
 }
 
 var selJ = []Matcher{{"job", "=", "j"}}
@@ -450,6 +453,9 @@ func generate(thorough bool, sel func(int) bool, count bool) *generator {
 	// ---------------- L8 ----------------
 	g.zones()
 
+	// ---------------- L9 ----------------
+	g.history(serFam)
+
 	// ---------------- L5 ----------------
 	g.special(serFam, timeFam)
 
@@ -745,6 +751,59 @@ func (g *generator) zones() {
 						g.addZ("L8", q, d, Params{FromS: from, ToS: from + 120, StepMs: int64(q.RangeS) * 1000}, false, off)
 					}
 				}
+			}
+		}
+	}
+}
+
+// history (L9): history independence.  Queries whose pipeline has a stage evaluated by the in-process engine (json
+// without parameters, logfmt, line_format) AFTER a line filter or a label filter — the planner splits such a query
+// (breakScript) — under a vector aggregation grouped by stream labels, plus one pure-SQL shape per family; each case is
+// four requests in one process (evaluate).  Databases: the series pool (entries with and without "k", three streams).
+func (g *generator) history(serFam *dbFamily) {
+	goStages := []Stage{{Kind: "json"}, {Kind: "logfmt"}, {Kind: "line_format", Val: "{{.m}}"}}
+	filters := [][]Stage{
+		{{Kind: "line", Op: "|=", Val: "k"}},
+		{{Kind: "line", Op: "!=", Val: "k"}},
+		{{Kind: "label", Label: "b", Op: "=", Val: "1"}},
+		{{Kind: "line", Op: "|=", Val: "k"}, {Kind: "label", Label: "a", Op: "=", Val: "x"}},
+	}
+	type hq struct{ q, sib *Query }
+	var qs []hq
+	for gi, gs := range goStages {
+		for fi, f := range filters {
+			if !g.thorough && (gi+fi)%2 == 1 {
+				continue // quick: every Go stage and every filter shape, half of the pairs
+			}
+			fn, agg, gr := "count_over_time", "sum", by(false, "a")
+			if fi%2 == 1 {
+				fn, agg, gr = "rate", "sum", by(true, "b") // sum only: additive, so the series the Go parsers split a stream into do not matter
+			}
+			mk := func(last Stage) *Query {
+				return &Query{Matchers: selJ, Stages: append(append([]Stage{}, f...), last), Fn: fn, RangeS: 5, Agg: agg, AGroup: gr}
+			}
+			qs = append(qs, hq{mk(gs), mk(goStages[(gi+1)%len(goStages)])})
+		}
+	}
+	// pure-SQL shapes as repeated requests
+	sql1 := &Query{Matchers: selJ, Stages: []Stage{{Kind: "line", Op: "|=", Val: "k"}}, Fn: "count_over_time", RangeS: 5, Agg: "sum", AGroup: by(false, "a")}
+	sql1b := &Query{Matchers: selJ, Stages: []Stage{{Kind: "line", Op: "|=", Val: "k"}}, Fn: "count_over_time", RangeS: 5, Agg: "sum", AGroup: by(false, "b")}
+	sql2 := &Query{Matchers: selJ, Stages: []Stage{{Kind: "label", Label: "a", Op: "=", Val: "x"}, jsonV(), unwrapV()}, Fn: "sum_over_time", RangeS: 5, RGroup: by(true, "a")}
+	sql2b := &Query{Matchers: selJ, Stages: []Stage{{Kind: "label", Label: "a", Op: "=", Val: "x"}, jsonV(), unwrapV()}, Fn: "max_over_time", RangeS: 5, RGroup: by(true, "a")}
+	sql3 := &Query{Matchers: selJ, Stages: []Stage{{Kind: "label", Label: "b", Op: "=", Val: "1"}}, Fn: "count_over_time", RangeS: 15, Agg: "sum", AGroup: by(false, "a"), Top: "topk", K: 1}
+	sql3b := &Query{Matchers: selJ, Stages: []Stage{{Kind: "label", Label: "b", Op: "=", Val: "1"}}, Fn: "count_over_time", RangeS: 15, Agg: "sum", AGroup: by(false, "a"), Top: "bottomk", K: 1}
+	qs = append(qs, hq{sql1, sql1b}, hq{sql2, sql2b}, hq{sql3, sql3b})
+	for _, h := range qs {
+		dbs := serFam.dbs[h.q.RangeS]
+		for i, d := range dbs {
+			if !g.thorough && i%3 != 0 && i != len(dbs)-1 {
+				continue // quick: every third sub-database and the whole pool
+			}
+			n := len(g.cases)
+			g.add("L9", h.q, d, window{0, 10}.params(h.q.RangeS, int64(h.q.RangeS)*1000), false)
+			if len(g.cases) > n {
+				c := &g.cases[len(g.cases)-1]
+				c.History, c.Sibling = true, h.sib.String()
 			}
 		}
 	}
